@@ -80,7 +80,7 @@ def known_k1(ctx):
 
 def run(ctx):
     games = [(gen_games.FIG55, gen_games.FIG55_META)] + sc.corpus_games() + gen_games.pattern_games(3)
-    games += gen_games.mixed_games(ctx.rng, 260 if ctx.quick else 5000, 3, 9, styles=("stopping", "exact", "stopping"))
+    games += gen_games.mixed_games(ctx.rng, 260 if ctx.quick else 5000, 3, 9, styles=("stopping", "exact", "ties"))
     recs = sc.run_games(ctx, games, limit=10, tag="c02")
     sc.correspondence(ctx, recs, "cmp_rewards", "c02")
     check(ctx, recs)
